@@ -62,7 +62,7 @@ def verify(worker, items):
         os.makedirs(od, exist_ok=True)
         for f in ("patch.diff", "demo.rs"):
             shutil.copy(os.path.join(d, f), os.path.join(od, f))
-        meta_out = dict(property=prop, seed=int(n) + OFFSET, round=(2 if OFFSET else 1), title=meta.get("title"), breaks_clause=meta.get("breaks_clause"),
+        meta_out = dict(property=prop, seed=int(n) + OFFSET, round={0: 1, 3: 2, 5: 3, 7: 4}.get(OFFSET, 0), title=meta.get("title"), breaks_clause=meta.get("breaks_clause"),
                         needs_to_manifest=meta.get("needs_to_manifest"), features=feats, demo_cmd=meta.get("demo_cmd"),
                         files_changed=meta.get("files_changed"), author="independent sub-agent given only the property text and a scratch worktree",
                         confirmed=res)
